@@ -561,7 +561,8 @@ def run(R):
                           "mem_pagemap_revalidate (locks and region-array growth); all other allocation sites are enumerated and observed, not proved",
                           "implementation-only (no model): open/read of LKCD, SADUMP, s390; re-open after a failed open; cache.size changes; "
                           "kdump_open_fdset on a set of files and the opens that follow it (the file-set consistency test reads struct attr_data); "
-                          "file.pagemap and max_pfn queries; the LKCD page index (search_page_desc)",
+                          "file.pagemap and max_pfn queries; the LKCD page index (search_page_desc); the growth of the per-file offset array of a "
+                          "flattened dump (open-flat-many: every allocation of the open fails once, the object is then re-opened and freed)",
 
                           "single-threaded: lock findings are self-deadlocks / holds at return, not races (C05)"]
 
